@@ -202,7 +202,7 @@ Definition c01j_world : Jsr.jworld :=
                                                            Jsr.vi_modinfo := [(1, [{| Jsr.jd_target := 3; Jsr.jd_range := 20; Jsr.jd_dyn := false |}])] |};
                                   Jsr.v_cached := false |})];
      Jsr.jw_match := [(1, [1])]; Jsr.jw_lock_pkg := None; Jsr.jw_lock_remote := []; Jsr.jw_http := [2; 3];
-     Jsr.jw_missing_chk := 8; Jsr.jw_max_redirects := 10; Jsr.jw_seed := [] |}.
+     Jsr.jw_missing_chk := 8; Jsr.jw_max_redirects := 10; Jsr.jw_seed := []; Jsr.jw_late := [] |}.
 
 Theorem C01_registry_sound_refuted :
   exists W o roots g,
